@@ -49,5 +49,13 @@ fn main() {
         "thorough" => Tier::Thorough,
         _ => usage(),
     };
-    vcore::props::run(&sut, &prop, tier);
+    // a panic that escapes the judges is a defect of the harness (or of an external tool it drives):
+    // infrastructure error with its location, never a silent exit code and never a violation
+    let r = std::panic::catch_unwind(std::panic::AssertUnwindSafe(|| vcore::props::run(&sut, &prop, tier)));
+    if let Err(e) = r {
+        let m = e.downcast_ref::<&str>().map(|s| s.to_string()).or(e.downcast_ref::<String>().cloned()).unwrap_or_default();
+        let loc = vcore::preflight::LAST_PANIC_LOCATION.lock().map(|g| g.clone()).unwrap_or_default();
+        eprintln!("HARNESS-PANIC: the check for {prop} panicked ({m}) at {loc}");
+        std::process::exit(2);
+    }
 }
